@@ -100,3 +100,20 @@ package consensus
 //@   invariant @loop 1: forall(i, 0, len(validConfirms), forall(j, 0, len(validConfirms), i != j ==> signer(block, validConfirms[i]) != signer(block, validConfirms[j])))
 //@   invariant @loop 1: forall(i, 0, len(validConfirms), minerOK(block) ==> signer(block, validConfirms[i]) != minerKey(block))
 //@   invariant @loop 1: forall(i, 0, len(validConfirms), forall(j, 0, len(block.Confirms), sigOK(block, block.Confirms[j]) ==> signer(block, validConfirms[i]) != signer(block, block.Confirms[j])))
+
+// The store behind the stable pointer (BeansDB/LevelDB, C08/C09): assumed interface contracts.
+//@ func (StableBlockStore).LoadLatestBlock   trusted
+//@   modifies nothing
+//@   ensures result1 == nil ==> result0 != nil && result0.Header != nil
+
+//@ func (StableBlockStore).SetStableBlock   trusted
+//@   modifies nothing
+
+// C03: the stable pointer only moves forward, and only to a block with enough confirms.
+//@ func (*StableManager).UpdateStable
+//@   props C03
+//@   requires sm != nil && block != nil && block.Header != nil && deputynode.wfManager(sm.dm) && deputynode.cfgOK()
+//@   requires len(block.Confirms) < 1<<30 && sm.dm.DeputyCount < 65536
+//@   assert @call SetStableBlock#0: block.Height() > oldStable.Height() && IsConfirmEnough(block, sm.dm)
+//@   ensures result0 ==> result2 == nil && IsConfirmEnough(block, sm.dm)
+//@   ensures !IsConfirmEnough(block, sm.dm) ==> !result0
